@@ -621,6 +621,19 @@ def k10(ctx):
                     ctx.check(got == want, "local-proof-orientation:" + key, "%s hands %s the congruence proof with the operand(s) it is about, in order" % (C.short(b0.id), c.callee.name),
                               "%s calls %s with component(s) %s of the congruence result and the %sproof of (component 0 = component 1): the callee takes its first invocation as the proof's left side, so the explanation it records is about the other invocation (same class, different slot names) — proofs built on it do not check" % (
                                   C.short(b0.id), c.callee.name, got, "flipped " if flips % 2 else ""), where)
+                elif isinstance(pr, tuple) and pr[0] == "call" and pr[1] == "prove_explicit" and len(pr[3]) >= 3 and len(idr) == 2:
+                    # proof = prove_explicit(l', r', justification) proves l' = r' where l' / r' are made from the operands
+                    lr = [strip_role(x) for x in pr[3][-3:-1]]
+                    def made_from(r):
+                        hits = [k for k in (0, 1) if any(strip_role(x) == r for x in role_walk(lr[k]) if isinstance(x, tuple))]
+                        return hits[0] if len(hits) == 1 else None
+                    got = [made_from(r) for r in idr]
+                    if None in got:
+                        continue
+                    n += 1
+                    want = [0, 1] if flips % 2 == 0 else [1, 0]
+                    ctx.check(got == want, "local-proof-orientation:" + key, "%s hands %s the two instantiated sides in the order the leaf proof states them" % (C.short(b0.id), c.callee.name),
+                              "%s builds the leaf proof for (first side = second side) and calls %s with the operands in the other order (%s): the union records the user's equation as a proof of its converse" % (C.short(b0.id), c.callee.name, got), where)
                 elif isinstance(pr, tuple) and pr[0] == "field" and pr[2] == "proof" and len(idr) == 2:
                     # the proof stored with a group element p proves  class[identity] = class[p]
                     pv = strip_role(pr[1])
